@@ -58,10 +58,48 @@ def blocks(tier, seed):
     for kind in ("polar", "sph"):
         for n, R in ((9, 4.5), (16, 8.0), (16, 5.0)):
             out.append({"kind": kind, "n": n, "R": R, "phase": ph})
-    for shape, R, z in (((6, 12), 4.0, (-3.0, 6.0)), ((5, 9), 2.5, (0.0, 6.3))):
+        for n, r0, R in ((12, 1.0, 7.0), (10, 2.5, 7.5)):  # annular grids: the droplet covers the hole
+            out.append({"kind": kind, "n": n, "R": R, "r0": r0, "phase": ph})
+    # z ranges containing 0, starting at 0, and excluding 0 on either side
+    for shape, R, z in (((6, 12), 4.0, (-3.0, 6.0)), ((5, 9), 2.5, (0.0, 6.3)), ((6, 12), 4.0, (2.0, 11.0)), ((5, 9), 2.5, (-9.3, -3.0))):
         for pz in (False, True):
             out.append({"kind": "cyl", "shape": list(shape), "R": R, "z": list(z), "pz": pz, "phase": ph, "tier": tier})
+    # elongated boxes, every mask: pairs separated along the long axis by multiples of the SHORT axis' length
+    for shape in ([8, 24], [24, 8]) + (([6, 6, 18], [18, 6, 6], [6, 18, 6]) if tier == "thorough" else ([6, 6, 18],)):
+        for mask in itertools.product((False, True), repeat=len(shape)):
+            out.append({"kind": "elong", "shape": list(shape), "mask": list(mask), "phase": ph})
+    # histories: all ordered pairs of grids that differ in exactly one attribute, analysed one after the other in a fresh process
+    for fam in ("cyl", "cart", "polar", "sph"):
+        out.append({"kind": "gridseq", "family": fam, "phase": ph})
     return out
+
+
+def grid_variants(fam):
+    """grids of one family that share the shape but differ in one other attribute each (keys of conceivable caches)"""
+    if fam == "cyl":
+        base = {"kind": "cyl", "shape": [6, 12], "R": 4.0, "z": [-3.0, 6.0], "periodic_z": False}
+        return [base, dict(base, z=[-3.0, 15.0]), dict(base, z=[1.0, 10.0]), dict(base, R=6.0), dict(base, periodic_z=True), dict(base, shape=[6, 14])]
+    if fam == "cart":
+        base = {"kind": "cart", "shape": [9, 9], "dx": [1.0, 1.0], "origin": [0.0, 0.0], "periodic": [True, True]}
+        return [base, dict(base, dx=[1.0, 1.5]), dict(base, dx=[1.5, 1.0]), dict(base, dx=[2.0, 2.0]), dict(base, origin=[-4.0, 2.5]), dict(base, periodic=[False, True]),
+                dict(base, periodic=[False, False]), dict(base, shape=[9, 12])]
+    base = {"kind": fam, "n": 12, "R": 6.0}
+    return [base, dict(base, R=9.0), dict(base, n=16), dict(base, R=7.0, r0=1.0)]
+
+
+def probe_case(g, ph):
+    """one resolvable droplet placed generically on grid g"""
+    k = g["kind"]
+    if k == "cart":
+        R = 2.3 * max(g["dx"])
+        c = [o + (n // 2 + 0.3 + ph) * d for o, n, d in zip(g["origin"], g["shape"], g["dx"])]
+        return {"grid": g, "drops": [[c, R]], "classes": ["interior"] * len(c)}
+    if k == "cyl":
+        dz = (g["z"][1] - g["z"][0]) / g["shape"][1]
+        R = 2.1 * max(dz, g["R"] / g["shape"][0])
+        return {"grid": g, "drops": [[[0.0, 0.0, g["z"][0] + (g["shape"][1] // 2 + 0.3 + ph) * dz], R]], "classes": ["on-axis"]}
+    dr = geom.radial_spacing(g)
+    return {"grid": g, "drops": [[[0.0] * geom.dim_of(g), g.get("r0", 0.0) + (4.3 + ph) * dr]], "classes": ["centred"]}
 
 
 def axis_classes(periodic):
@@ -126,13 +164,37 @@ def cases(block):
                             c2 = [c1[a] + v[a] / nv * dist for a in range(dim)]
                             yield {"grid": g, "drops": [[c1, R1], [c2, R2]], "classes": list(cls)}
     elif k in ("polar", "sph"):
-        n, Ro = block["n"], block["R"]
-        dr = Ro / n
+        n, Ro, r0 = block["n"], block["R"], block.get("r0", 0.0)
+        dr = (Ro - r0) / n
         g = {"kind": k, "n": n, "R": Ro}
+        if r0:
+            g["r0"] = r0
         dim = 2 if k == "polar" else 3
         for i in range(40):
-            R = 1.5 * dr + (Ro - 2.6 * dr) * (i + 0.31 + ph) / 40
+            R = r0 + 1.5 * dr + (Ro - r0 - 2.6 * dr) * (i + 0.31 + ph) / 40
             yield {"grid": g, "drops": [[[0.0] * dim, R]], "classes": ["centred"]}
+    elif k == "elong":
+        shape, mask = block["shape"], block["mask"]
+        dim = len(shape)
+        g = {"kind": "cart", "shape": shape, "dx": [1.0] * dim, "origin": [0.0] * dim, "periodic": mask}
+        long_ax = int(np.argmax(shape))
+        short = min(shape)
+        R = 1.7
+        for off in itertools.product((0.2 + ph, 0.6 + ph), repeat=dim):
+            c1 = [(3 if a == long_ax else shape[a] // 2) + off[a] for a in range(dim)]
+            for mult in (1, 2):
+                for jitter in (0.0, 0.4):
+                    c2 = list(c1)
+                    c2[long_ax] = c1[long_ax] + mult * short + jitter
+                    yield {"grid": g, "drops": [[c1, R], [c2, R]], "classes": ["interior"] * dim, "elong": True}
+                    if dim == 3:
+                        break
+    elif k == "gridseq":
+        V = grid_variants(block["family"])
+        for a, b in itertools.permutations(range(len(V)), 2):
+            yield {"sequence": [probe_case(V[a], ph), probe_case(V[b], ph)]}
+        for a, b, c in itertools.permutations(range(min(len(V), 4)), 3):
+            yield {"sequence": [probe_case(V[a], ph), probe_case(V[b], ph), probe_case(V[c], ph)]}
     elif k == "cyl":
         shape, Ro, z, pz = block["shape"], block["R"], block["z"], block["pz"]
         dr = Ro / shape[0]
@@ -158,12 +220,21 @@ def cases(block):
 def run_case(case, ctx):
     from droplets import Emulsion, SphericalDroplet, locate_droplets
 
+    if "sequence" in case:
+        from mcx import core
+
+        ctx.count("grid-sequences")
+        return core.run_sequence_in_fork(run_case, case["sequence"], ctx, tag={"history": True})
     g = case["grid"]
     kind = g["kind"]
     dim = geom.dim_of(g)
     drops = case["drops"]
     cellvol = geom.cell_volumes(g)
     tags = {"grid": kind}
+    if case.get("elong"):
+        ctx.count("pairs-separated-by-the-other-axis-length")
+    if g.get("r0"):
+        ctx.count("annular-grid")
     # ---- reference: covered sets + precondition screens ---------------
     covered = []
     for c, R in drops:
@@ -201,6 +272,9 @@ def run_case(case, ctx):
             else:
                 gap = abs(drops[i][0][2] - drops[j][0][2]) - drops[i][1] - drops[j][1]
                 need = 3 * max(g["R"] / g["shape"][0], (g["z"][1] - g["z"][0]) / g["shape"][1])
+                if g["periodic_z"]:
+                    Lz = g["z"][1] - g["z"][0]
+                    gap = min(gap, Lz - abs(drops[i][0][2] - drops[j][0][2]) - drops[i][1] - drops[j][1])
             if gap < need - 1e-9:
                 ctx.skip("precondition:gap")
                 return
@@ -243,6 +317,8 @@ def run_case(case, ctx):
         c, R = drops[order[k_]]
         cov = covered[order[k_]]
         V = float(cellvol[cov].sum())
+        if g.get("r0"):
+            V += geom.sphere_volume(g["r0"], dim)  # the droplet also covers the hole of an annular grid, which holds no cells
         ctx.check("C01.volume", abs(d.volume - V) <= 1e-9 * V, {"got": d.volume, "want": V}, tags)
         p = np.asarray(d.position, float)
         if kind == "cart":
@@ -253,7 +329,7 @@ def run_case(case, ctx):
                 if g["periodic"][a]:
                     ctx.check("C01.inbox", g["origin"][a] - 1e-12 <= p[a] <= g["origin"][a] + L[a] + 1e-12, {"axis": a, "pos": p}, tags)
         elif kind in ("polar", "sph"):
-            dr = g["R"] / g["n"]
+            dr = geom.radial_spacing(g)
             ctx.check("C01.centre", bool(np.all(p == 0)) and abs(d.radius - R) <= dr / 2 + 1e-9, {"pos": p, "radius": d.radius, "want": R, "dr": dr}, tags)
         else:
             dz = (g["z"][1] - g["z"][0]) / g["shape"][1]
@@ -264,4 +340,5 @@ def run_case(case, ctx):
 
 def expected_positive(tier):
     return ["C01.count", "C01.volume", "C01.centre", "C01.inbox", "C01.integral", "straddling-periodic-boundary", "straddling-periodic-corner",
-            "centre-outside-box", "anisotropic", "two-droplets", "covers>=3cells"]
+            "centre-outside-box", "anisotropic", "two-droplets", "covers>=3cells",
+            "grid-sequences", "pairs-separated-by-the-other-axis-length", "annular-grid"]
